@@ -4,10 +4,12 @@ the model runners for the four backends, and the model-independent checks on the
 -/
 import OpenFGAVerif.Driver.Proto
 import OpenFGAVerif.Model.StoreWrite
+import OpenFGAVerif.Model.StoreKeys
 import OpenFGAVerif.Gen.StoreWrite
+import OpenFGAVerif.Gen.StoreKeys
 
 namespace OpenFGAVerif.Driver.StoreW
-open OpenFGAVerif OpenFGAVerif.Model.StoreTypes OpenFGAVerif.Model.StoreWrite
+open OpenFGAVerif OpenFGAVerif.Model OpenFGAVerif.Model.StoreTypes OpenFGAVerif.Model.StoreWrite
 
 /-! ### text form -/
 
@@ -86,6 +88,18 @@ def genCfg : SqlCfg :=
 def memCeq : TupleRec → TupleRec → Bool := ceqOfSource Gen.StoreWrite.memCondCompare memCompareNormalisedText
 def sqlCeq : TupleRec → TupleRec → Bool := ceqOfSource Gen.StoreWrite.sqlCondCompare sqlCompareNormalisedText
 
+/-- the lock keys of a request as the source computes them today (field list and separator of makeTupleLockKeys'
+    de-dup key: `Gen.StoreKeys.sqlLockKeyJoin` / `sqlLockKeySep`) -/
+def srcLockKeys (dels : List TupleKey) (writes : List TupleRec) : List TupleKey :=
+  StoreKeys.sqlLockKeys StoreKeys.userTypeOf (StoreKeys.lockFieldsOf Gen.StoreKeys.sqlLockKeyJoin)
+    (Gen.StoreKeys.sqlLockKeySep.map Char.ofNat) dels writes
+
+/-- sqlite.write / its driver-level trace with these lock keys -/
+def sqlWriteSrc (db : Db) (dels : List TupleKey) (writes : List TupleRec) (o : WriteOpts) (now : Nat) (f : Option Fail) : Db × Option WriteErr :=
+  StoreKeys.sqlWriteK (srcLockKeys dels writes) sqlCeq genCfg db dels writes o now f
+def sqlTraceSrc (db : Db) (dels : List TupleKey) (writes : List TupleRec) (o : WriteOpts) : List String :=
+  StoreKeys.sqlTraceK (srcLockKeys dels writes) sqlCeq db dels writes o
+
 /-- model state of one session: the memory store (raw records) or the SQL database -/
 inductive MState where
   | mem (s : StoreState)
@@ -132,7 +146,7 @@ def stepModel (backend : String) (m : MState) (r : Req) (now : Nat) (f : Option 
       let (s', e) := memWrite memCeq s r.dels r.writes o now
       (.mem s', match e with | none => "ok" | some e => e.name)
     | .sql db =>
-      let (db', e) := sqlWrite sqlCeq genCfg db r.dels r.writes o now f
+      let (db', e) := sqlWriteSrc db r.dels r.writes o now f
       (.sql db', match e with | none => "ok" | some e => e.name)
 
 /-! ### what the implementation printed -/
